@@ -224,6 +224,41 @@ func runCoCase(c coCase, st *coStats) *fail {
 			if f := expect(tClunk(40), refcodec.New(refcodec.Rclunk, 0)); f != nil {
 				return f
 			}
+		case "setxattr":
+			// an attribute value sent with Txattrcreate + Twrite is handed to the
+			// backend at Tclunk; writes of the same length to an ordinary file (this
+			// and the other connection) come in between
+			val := coBytes(max(stp.N, 1), stp.Salt)
+			if _, f := call(tWalk(0, 41)); f != nil {
+				return f
+			}
+			tag++
+			if f := expect(tXattrcreate(41, "user.w", uint64(len(val)), 0), refcodec.New(refcodec.Rxattrcreate, 0)); f != nil {
+				return f
+			}
+			tag++
+			if f := expect(refcodec.New(refcodec.Twrite, 0, "fid", 41, "offset", 0, "data", val), refcodec.New(refcodec.Rwrite, 0, "count", len(val))); f != nil {
+				return f
+			}
+			for k := 0; k < 1+stp.M%4; k++ {
+				filler := bytes.Repeat([]byte{0xF0 + byte(k)}, len(val))
+				tag++
+				if f := expect(refcodec.New(refcodec.Twrite, 0, "fid", 1, "offset", uint64(k), "data", filler), refcodec.New(refcodec.Rwrite, 0, "count", len(filler))); f != nil {
+					return f
+				}
+			}
+			tag++
+			if f := expect(tClunk(41), refcodec.New(refcodec.Rclunk, 0)); f != nil {
+				return f
+			}
+			rs := recs("SetXattr")
+			if len(rs) != 1 || !bytes.Equal(rs[0].Data, val) {
+				got := []byte{}
+				if len(rs) > 0 {
+					got = rs[0].Data
+				}
+				return failf("carry-over:backend-xattr-value", "%s: the attribute value reached the backend as %d bytes (%x…), Twrite carried %d bytes (%x…); %d writes of the same length to a file came in between", what, len(got), got[:min(len(got), 16)], len(val), val[:min(len(val), 16)], 1+stp.M%4)
+			}
 		case "attach":
 			tag++
 			an := coName(stp.N, stp.Salt)
@@ -618,7 +653,7 @@ func runOverlapCase(c overlapCase) *fail {
 	return nil
 }
 
-var coKinds = []string{"walk", "walkga", "write", "read", "readdir", "symlink", "xattr", "renameat", "attach"}
+var coKinds = []string{"walk", "walkga", "write", "read", "readdir", "symlink", "xattr", "renameat", "attach", "setxattr"}
 
 func genCoCase(rt *rapid.T) coCase {
 	c := coCase{Conns: rapid.IntRange(1, 3).Draw(rt, "conns")}
